@@ -213,7 +213,7 @@ def port_alphabet(seed: int, platform: str = "ios", small: bool = False):
     else:
         out += [PortX("lt", (1,))]
     if platform == "ios":
-        out += [PortX("eq", (p, q))]
+        out += [PortX("eq", (p, q)), PortX("neq", (p, q))]
         if not small:
             out += [PortX("eq", (p, q, r)), PortX("eq", (1, 2, 3, 4, 5, 6, 7, 8, 9, 10))]
     return out
